@@ -3,6 +3,7 @@ package main
 import (
 	"fmt"
 	"go/token"
+	"sort"
 	"strings"
 
 	"golang.org/x/tools/go/ssa"
@@ -67,6 +68,8 @@ func checkC12(p *Prog, r *Report) {
 	}
 	r.Floor("R7", "deletions on the per-peer maps", nDel, 3)
 	approvalCleanupRule(p, r, "R8")
+	r.Rule("R10", "the locks of the approval bookkeeping are acquired in one order everywhere: no cycle of the held->acquired relation (over all mutexes, along synchronous calls) passes through a lock of the local feature — a verdict racing the clean-up after a disconnect cannot deadlock and leave writes without outcome")
+	lockOrderOn(p, r, "R10", "FeatureLocal.", "locks of the local feature")
 	r.Rule("R9", "every approval callback registered takes part: AddWriteApprovalCallback stores its callback on every path that does not return an error (no registration is dropped silently)")
 	registrationRule(p, r, "R9", "AddWriteApprovalCallback", "FeatureLocal.writeApprovalCallbacks")
 	r.Rule("R2", "whoever deletes a pending entry and then produces an outcome claims it: a comma-ok look-up of the entry and its deletion share one critical section, and every outcome effect is reached only if the look-up found the entry")
@@ -459,4 +462,111 @@ func c12Tally(p *Prog, ls *Lockset, r *Report, fli interface{}) {
 		return
 	}
 	r.Undecided("R6", "anchor:ApproveOrDenyWrite", "", "implementation not found")
+}
+
+// claimRule (C12-R2, shared with C01): whoever deletes a pending entry and then
+// produces an outcome claims it — the comma-ok look-up and the delete share one
+// critical section and every outcome effect is reached only on the found edge.
+func claimRule(p *Prog, ls *Lockset, ib *inbound, r *Report, rule string) {
+	pend := F("FeatureLocal.pendingWriteApprovals")
+	n := 0
+	for _, fn := range ls.fns {
+		if isWrapper(fn) {
+			continue
+		}
+		var dels []*ssa.Call
+		var lookups []*ssa.Lookup
+		for _, a := range ls.accessesIn(pend, fn) {
+			switch x := a.Ins.(type) {
+			case *ssa.Call:
+				if builtinName(&x.Call) == "delete" && strings.Contains(Path(x.Call.Args[0]), "."+FN("FeatureLocal.pendingWriteApprovals")+"[]") {
+					dels = append(dels, x)
+				}
+			case *ssa.Lookup:
+				if x.CommaOk && strings.Contains(Path(x.X), "."+FN("FeatureLocal.pendingWriteApprovals")+"[]") {
+					lookups = append(lookups, x)
+				}
+			}
+		}
+		if len(dels) == 0 {
+			continue
+		}
+		n++
+		base := FnName(fn)
+		okClaim := false
+		var claim *ssa.Lookup
+		for _, d := range dels {
+			for _, lk := range lookups {
+				if Path(lk.Index) == Path(d.Call.Args[1]) && len(ls.CommonSections(lk, d)) > 0 {
+					okClaim = true
+					claim = lk
+				}
+			}
+		}
+		r.Check(rule, base+"|claim", okClaim, p.InstrPos(dels[0]), fmt.Sprintf("%d comma-ok look-ups of the pending entry; one shares the critical section of the delete: %v", len(lookups), okClaim))
+		nEff, okEff := 0, true
+		forEachCall(fn, func(site ssa.CallInstruction) {
+			c, ok := site.(*ssa.Call)
+			if !ok {
+				return
+			}
+			isOutcome := ib.effect(site, nil) == "resErr"
+			if !isOutcome {
+				for _, callee := range p.Callees(site) {
+					if ib.engine().relevantTo(callee, "storeRemoteWrite", ib) {
+						isOutcome = true
+					}
+				}
+			}
+			if !isOutcome {
+				return
+			}
+			nEff++
+			guarded := false
+			for _, g := range Guards(c.Block()) {
+				if ex, ok := g.Cond.(*ssa.Extract); ok && ex.Index == 1 && claim != nil && ex.Tuple == ssa.Value(claim) && g.Val {
+					guarded = true
+				}
+			}
+			if !guarded {
+				okEff = false
+			}
+		})
+		r.Check(rule, base+"|outcome-after-claim", nEff > 0 && okEff, p.Pos(fn.Pos()), fmt.Sprintf("%d outcome effects, all reached only on the found edge of the claiming look-up: %v", nEff, okEff))
+	}
+	r.Floor(rule, "resolvers (functions deleting a pending entry)", n, 2)
+}
+
+// approvalLockOrder: no cycle of the held->acquired relation contains a lock of the
+// write-approval bookkeeping (a verdict racing a disconnect clean-up must not deadlock).
+func lockOrderOn(p *Prog, r *Report, rule string, prefix string, what string) {
+	lo := BuildLockOrder(p, p.RepoFnsWithWrappers("spine", "model", "util", "api"))
+	bad := 0
+	for _, cyc := range lo.Cycles() {
+		var names, wit []string
+		hit := false
+		for _, e := range cyc {
+			names = append(names, e.From)
+			wit = append(wit, e.Witness)
+			if strings.HasPrefix(e.From, prefix) {
+				hit = true
+			}
+		}
+		if !hit {
+			continue
+		}
+		bad++
+		sort.Strings(names)
+		r.Fail(rule, "cycle:"+strings.Join(names, ","), "", strings.Join(wit, " ; "))
+	}
+	n := 0
+	for k := range lo.Nodes {
+		if strings.HasPrefix(k, prefix) {
+			n++
+		}
+	}
+	if bad == 0 {
+		r.Pass(rule, "order:"+prefix, "", fmt.Sprintf("%d %s, %d held->acquired edges over all mutexes, no cycle through them", n, what, len(lo.Edges)))
+	}
+	r.Floor(rule, what, n, 2)
 }
